@@ -9,6 +9,9 @@
 //	K <mid> <type letter>                                                                 every implementation mark seen
 //	M <pid> <vid> : <mids>                                                                final FlowInformation.MarkedValues
 //	E <mid> <uid>                                                                         summary edges origin node -> use node
+//	LS <pid> <addr vid> <val vid>                                                         the instruction is the store *addr = val
+//	LL <pid> <addr vid>                                                                   the instruction is the load  r = *addr
+//	LA <pid>                                                                              the instruction is an Alloc
 //	X <text>                                                                              analysis error / note
 //	Z                                                                                     end of function
 //
@@ -466,6 +469,17 @@ func (d *dumper) dumpFunction(fn *ssa.Function, tag string) {
 				fmt.Fprintf(w, " %d", o)
 			}
 			fmt.Fprintln(w)
+			// store / load / alloc tables of the L2 fragment (Lang/RegSem.hfunc)
+			switch x := ins.(type) {
+			case *ssa.Store:
+				fmt.Fprintf(w, "LS %d %d %d\n", p, vid(x.Addr), vid(x.Val))
+			case *ssa.UnOp:
+				if x.Op == token.MUL {
+					fmt.Fprintf(w, "LL %d %d\n", p, vid(x.X))
+				}
+			case *ssa.Alloc:
+				fmt.Fprintf(w, "LA %d\n", p)
+			}
 			if prev != 0 {
 				fmt.Fprintf(w, "S %d : %d\n", prev, p)
 			}
